@@ -158,9 +158,10 @@ pub fn opt<T>(o: Option<T>, f: impl FnOnce(T) -> String) -> String {
 
 /// the three integers of a diagnostic Label, read from its Debug output (it has no accessors)
 pub fn label_numbers(dbg: &str) -> Option<(usize, usize)> {
-    let off = dbg.split("offset: ").nth(1)?;
+    // the text field comes first and may itself contain "len: "; the numeric fields are last
+    let off = &dbg[dbg.rfind("offset: ")? + 8..];
     let off: usize = off.split(|c: char| !c.is_ascii_digit()).next()?.parse().ok()?;
-    let len = dbg.split("len: ").nth(1)?;
+    let len = &dbg[dbg.rfind("len: ")? + 5..];
     let len: usize = len.split(|c: char| !c.is_ascii_digit()).next()?.parse().ok()?;
     Some((off, len))
 }
